@@ -60,6 +60,8 @@ def c03_strata(tier: str) -> List[Stratum]:
                                           same_device=r.random() < 0.3)),
         Stratum("faulty", scale(tier, 3000, 300000),
                 lambda r, i: tg.gen_mixed(r, r.choice([1, 2]), 6, ["ok", "ok", "segment", "extra", "truncate"], False, True)),
+        Stratum("three-to-four-instances", scale(tier, 1500, 200000),
+                lambda r, i: tg.gen_mixed(r, r.choice([3, 4]), 5, ["ok"], True, True, same_device=r.random() < 0.4)),
     ]
 
 
@@ -84,8 +86,11 @@ def c10_strata(tier: str) -> List[Stratum]:
 
 def c16_strata(tier: str) -> List[Stratum]:
     return [
-        Stratum("eof-at-step", scale(tier, 4000, 200000), lambda r, i: tg.gen_c16(r, eof_step=i % 4), systematic=False),
-        Stratum("control", scale(tier, 12000, 1200000), lambda r, i: tg.gen_c16(r)),
+        Stratum("subsets-systematic", len(tg.C16_CASES) * scale(tier, 2, 40), lambda r, i: tg.gen_c16_systematic(r, i),
+                systematic=True, note="all 2^5 subsets of requested settings x {plain, toggle} x {separate swing or not} x "
+                                      "update-only flag x an empty reply at step 1..4 or none (1280 cases)"),
+        Stratum("eof-at-step", scale(tier, 3000, 200000), lambda r, i: tg.gen_c16(r, eof_step=i % 4), systematic=False),
+        Stratum("control", scale(tier, 9000, 1200000), lambda r, i: tg.gen_c16(r)),
     ]
 
 
